@@ -6,7 +6,8 @@ backoff, context cancellation).
 Design level: SessionLife.tla (two nodes, links, goroutines, clocks; SessionCore.tla is the session automaton) checked
 by TLC: safety in every interleaving with one node at the code's grain and an adversarial peer (no clocks), safety
 incl. the bound on silence and liveness under fairness with both nodes and discrete time; witnesses; two configurations
-whose violation is EXPECTED document what the code does (as found / a race of removeConnection's two sections).
+whose violation is EXPECTED document what the code does or did (as found, before two repairs / a race of
+removeConnection's two sections).
 Conformance: harness/cmd/vsl drives real nodes (real TCP dialer/listener backends through a harness relay that can go
 silent, cut, refuse and come back; memnet links; scripted peers) through seeded scenarios; every node's hook events are
 validated by TLC against SessionLifeTrace.tla (same automaton), the driver adds what only it can see."""
@@ -23,8 +24,8 @@ FULL = [("SessionLife_live.cfg", 3, 2400), ("SessionLife_live_stop.cfg", 3, 2400
         ("SessionLife_full_dial_two.cfg", 3, 2400), ("SessionLife_full_dial_shut.cfg", 3, 2400), ("SessionLife_full_dial_cancel.cfg", 3, 2400), ("SessionLife_full_dial_silent.cfg", 3, 2400),
         ("SessionLife_full_dial_adv3.cfg", 3, 2400), ("SessionLife_full_listen_cancel.cfg", 3, 2400), ("SessionLife_full_listen_shut.cfg", 3, 2400),
         ("SessionLife_full_listen_adv5.cfg", 3, 2400)]
-EXPECTED = [("SessionLife_race.cfg", "EstHasEdge")]
-EXPECTED_THOROUGH = [("SessionLife_asis.cfg", "NoOrphan")]
+EXPECTED = []      # quick: quick_dial + quick_listen + four witnesses only (JVM time dominates on the shared box)
+EXPECTED_THOROUGH = [("SessionLife_asis.cfg", "NoOrphan"), ("SessionLife_asis_cancel.cfg", "RebuildComing"), ("SessionLife_race.cfg", "EstHasEdge")]
 
 
 def _tlc(cfg, workers, timeout, wd):
